@@ -34,7 +34,7 @@ var seqBulkBig = &SeqCfg{
 }
 
 var seqAudit = &SeqCfg{
-	Focus: "audit", Ops: [2]int{30, 80}, NColls: [2]int{2, 3}, InitDocs: []int{0, 3, 12, 40, 150},
+	Focus: "audit", Ops: [2]int{30, 80}, NColls: [2]int{2, 3}, InitDocs: []int{0, 3, 12, 40, 150, 0, 3, 12, 40, 150, 600, 1300},
 	AuditEvery: [2]int{2, 6}, Queries: 0, Backends: threeBackends,
 	W: weights(map[string]int{"DropCollection": 6, "CreateCollection": 6, "CreateIndex": 10, "DropIndex": 8, "DeleteById": 14, "Delete": 8, "UpdateFunc": 10, "UpdateById": 10,
 		"FindAll": 2, "Count": 2, "hostileBatchPct": 30, "rewriteIDPct": 10, "badExpPct": 10, "Reopen": 2}),
@@ -69,7 +69,7 @@ var seqColls = &SeqCfg{
 }
 
 var seqIndexes = &SeqCfg{
-	Focus: "indexes", Ops: [2]int{30, 60}, NColls: [2]int{1, 2}, InitDocs: []int{0, 3, 10, 30},
+	Focus: "indexes", Ops: [2]int{30, 60}, NColls: [2]int{1, 2}, InitDocs: []int{0, 3, 10, 30, 0, 3, 10, 30, 120, 700},
 	AuditEvery: [2]int{10, 20}, Queries: 1, Backends: allBackends, AuditAfterIndexOps: true, SortPct: 60,
 	W: weights(map[string]int{"CreateIndex": 22, "DropIndex": 16, "HasIndex": 6, "ListIndexes": 6, "CreateCollection": 1, "DropCollection": 1, "FindAll": 14}),
 	ForceFields: map[string]gen.Profile{"x": {Kind: gen.PSmallInt, Absent: 10}, "xy": {Kind: gen.PMixedNum, Nil: 10}, "n.a": {Kind: gen.PSmallInt, Absent: 20}, "n.b": {Kind: gen.PString}},
@@ -220,7 +220,7 @@ func init() {
 		ID: "C07", Level: "exploration",
 		Rule: "2-8 goroutines x 6-14 operations on one handle (insert batches with unique tags, point update/replace/delete, bulk update/delete by group, index create/drop, FindAll snapshots, Count, FindById, ListIndexes; one *query.Query and one Criteria shared and extended by all goroutines) with scheduling perturbed at every store call (Gosched / 1-50 us sleeps, seeded); every call is recorded with call/return stamps from one atomic counter and the history is checked by porcupine against a sequential model of the collection (a conflict-rejected operation is accepted only as a no-op; 60 s budget, Unknown = inconclusive); every snapshot read is checked online for torn batches and partly applied bulk updates; the state-rebuild audit runs at quiescence; a quarter of the cases run again in the -race build and every race report whose stacks contain clover frames is a violation. evaluations = recorded operations checked; a cell is an overlapping operation-kind pair actually observed per backend class.",
 		Assumptions: []string{"interleavings are sampled, not enumerated: the evidence lists which operation pairs were seen overlapping", "races wholly inside bbolt/badger are logged as external and do not decide"},
-		Uses: []core.Use{{E: eConc, Quick: 240, Thorough: 6000, Race: true}},
+		Uses: []core.Use{{E: eConc, Quick: 240, Thorough: 6000, Race: true}, {E: &core.Engine{Name: "conc-catalog", Run: RunConcCatalog}, Quick: 60, Thorough: 1500, Race: true}},
 	})
 
 	eCrash := &core.Engine{Name: "crash", Run: RunCrash}
@@ -231,4 +231,11 @@ func init() {
 		Assumptions: []string{"a killed process keeps the page cache: power loss and torn sectors are not produced by this check", "badger runs with its default SyncWrites=false"},
 		Uses: []core.Use{{E: eCrash, Quick: 14, Thorough: 400}, {E: eReopen, Quick: 24, Thorough: 500}},
 	})
+
+	// the directed scenario library runs in every check; a scenario that does not guard the property is a no-op
+	eDirected := &core.Engine{Name: "directed", Run: RunDirected}
+	for _, p := range core.Registry {
+		p.Uses = append(p.Uses, core.Use{E: eDirected, Quick: NumScenarios(), Thorough: NumScenarios()})
+		p.Rule += " Plus the deterministic directed scenarios (drive/directed.go) that guard this property, on bbolt, badger in memory and badger on disk."
+	}
 }
